@@ -231,6 +231,23 @@ def run(rep, tier, root=None):
     dv = Interp(ix).returns(D, [Rat.sym("s"), r0, L0])
     if len(dv) == 1:
         check_degree(rep, "r0deg", D.fq + " ~ r0^(-5/3)", dv[0][1], "r0", Fr(-5, 3), D.where(), "structure function")
+    # the finite-difference identity of `stencil` needs D to be ONE stationary structure function for every separation the
+    # stencil evaluates it at (sub-aperture pairs closer or farther than the outer scale alike): a single elementwise closed
+    # form, not a law selected by comparing the separation with something (constants and exponents are C08's subject)
+    from .c08 import NOT_POINTWISE
+    sD = Rat.sym("s", ("array",))
+    dvs = Interp(ix).returns(D, [sD, r0, L0])
+    vals_ = [v_ for c_, v_ in dvs if isinstance(v_, Rat)]
+    if len(vals_) != 1 or has_unknown(vals_[0]):
+        rep.unknown("stencil.structure-law", D.fq, "cannot normalise the structure function to one closed form", D.where())
+    else:
+        v_ = vals_[0]
+        npw = [a for a in v_.atoms() if isinstance(a, Fn) and (a.name in NOT_POINTWISE or (a.name == "cmp" and Rat.atom(a).depends_on(Sym("s"))))]
+        kvs = [a for a in v_.atoms() if isinstance(a, Fn) and a.name == "kv"]
+        rep.check(not npw and len(kvs) == 1, "stencil.structure-law", D.fq + ": one elementwise Bessel law for every separation",
+                  "the structure function is not a single elementwise closed form in the separation (%s): sub-aperture pairs on either "
+                  "side of the switch are differenced with different laws, so the slope covariance is not that of one stationary field"
+                  % (sorted(set(a.name for a in npw)) or "no Bessel term"), D.where())
 
     # ---------------------------------------------------------------- assembly copies
     for mname in ("_make_covariance_matrix", "_make_covariance_matrix_mp"):
